@@ -78,6 +78,7 @@ type Disk struct {
 	prefix    string
 	names     map[string]*inode
 	committed map[string]*inode
+	everDur   map[string]bool // paths that were part of the durable namespace at some point
 	journal   []nsOp
 	nextIno   int
 	mutOps    int // mutating operations performed (all incarnations)
@@ -325,6 +326,7 @@ func (w *World) powerLossLocked(node *verifsim.Node, seed uint64, mode string) {
 	}
 	for _, op := range d.journal[:j] {
 		applyNs(names, op)
+		d.noteDurable(op)
 	}
 	w.Stats["crash_images"]++
 	if j < len(d.journal) {
@@ -408,8 +410,35 @@ func applyNs(names map[string]*inode, op nsOp) {
 func (d *Disk) commitJournal() {
 	for _, op := range d.journal {
 		applyNs(d.committed, op)
+		d.noteDurable(op)
 	}
 	d.journal = nil
+}
+
+func (d *Disk) noteDurable(op nsOp) {
+	if d.everDur == nil {
+		d.everDur = map[string]bool{}
+	}
+	switch op.kind {
+	case "create":
+		d.everDur[op.path] = true
+	case "rename":
+		d.everDur[op.newPath] = true
+	}
+}
+
+// EverDurable reports the paths under dir that were in the durable namespace at some point of the
+// disk's life (committed by a directory sync, or present in a crash image).
+func (w *World) EverDurable(dir string) map[string]bool {
+	w.mu.Lock()
+	defer w.mu.Unlock()
+	out := map[string]bool{}
+	if d := w.diskOf(dir + "/x"); d != nil {
+		for p := range d.everDur {
+			out[p] = true
+		}
+	}
+	return out
 }
 
 func (d *Disk) parentExists(path string) bool {
